@@ -98,6 +98,8 @@ vector<GlobalGraph::Edge> GlobalGraph::unlink(Graph::NodeId nodeA, Graph::NodeId
   // unlinking in the structure
   vector<GlobalGraph::Edge> deletedEdges; // what edges ID are affected by this unlinking
   deletedEdges.push_back(unlinkInNodeStructure_(nodeA, nodeB));
+  if (!directed_)
+    unlinkInNodeStructure_(nodeB, nodeA); // link() recorded both directions
 
   for (auto& currEdgeToDelete : deletedEdges)
   {
